@@ -41,7 +41,7 @@ CLAUSES = {"join": "valid distinct address recorded under its ID within the time
            "lookup": "master's current mapping, trivial answers, -2 / -1 codes", "undisturbed": "asking never disturbs the master",
            "release": "back to the unassigned address, lease freed", "connected": "check_connection() True exactly for connected nodes",
            "safe": "with loss: no exception, termination, valid-or-None"}
-PROBES = ["collision", "serialised_call_checked", "join_via_relay", "join_at_level_4", "master_mcu_stopped", "orphan_rejoined", "fault:mcu_stall_on_rx"]
+PROBES = ["collision", "serialised_call_checked", "join_via_relay", "join_at_level_4", "master_mcu_stopped", "orphan_rejoined", "fault:mcu_stall_on_rx", "master_busy_during_check", "peer_mcu_stopped"]
 SHRINK_KEYS = ("joiners", "faults")
 CHUNK = 2
 MAX_INCONCLUSIVE = 0.03
@@ -189,6 +189,27 @@ def make(i, base_seed, tier):
             js = [{"id": ids3[k_], "cls": "mesh", "offset_ms": 0, "knobs": kn[k_], "ops": [{"op": "renew", "timeout": 10.0}]} for k_ in range(3)]
             scn.update(serial=True, lossy=False, faults=[], prefill={str(k_): v for k_, v in pf.items()}, joiners=js, family="late_relay",
                        stall_on_rx={"ptype": 128, "ms": xr.uniform(222, 262), "relay_ids": ids3[:2]})
+    if not big and 0.3 <= fam < 0.4:
+        ids3 = xr.sample(range(1, 256), 3)
+        kn = [knobs() for _ in range(3)]
+        for k_ in kn + [scn["master_knobs"]]:
+            k_.pop("stall_prob", None)
+            k_.pop("stall_us", None)
+        if fam < 0.35:
+            # (busy_master) the master's application is busy - not calling update() - for longer than one lookup window (135 ms)
+            # and shorter than two while a connected node asks check_connection(3, ping_master=True) / looks something up with the
+            # remaining attempts of its own: the master is running, the medium loss-free, the node connected
+            ja = {"id": ids3[0], "cls": "mesh", "offset_ms": 0, "knobs": kn[0], "ops": [{"op": "renew", "timeout": 10.0}]}
+            scn.update(serial=True, lossy=False, faults=[], prefill={}, joiners=[ja], family="busy_master",
+                       busy={"ms": xr.uniform(140, 200), "lead_ms": xr.uniform(0, 3), "attempts": xr.choice([3, 3, 4])})
+        else:
+            # (peer_down) three nodes join; one loses power (or only its MCU stops: its radio keeps acknowledging until its FIFO is
+            # full, then goes deaf); the second keeps sending to its ID while the third looks things
+            # up and pings: the master forwards for the stopped node, fails, retries - and must not lose the others' requests
+            js = [{"id": ids3[k_], "cls": "mesh", "offset_ms": 0, "knobs": kn[k_], "ops": [{"op": "renew", "timeout": 10.0}]} for k_ in range(3)]
+            scn.update(serial=True, lossy=False, faults=[], prefill={}, joiners=js, family="peer_down",
+                       peer_down={"gone": xr.random() < 0.7, "sends": [{"len": xr.choice([0, 5, 24]), "type": xr.choice([1, 33, 70]), "seed": xr.getrandbits(20), "gap_ms": xr.randint(0, 30)} for _ in range(xr.randint(4, 8))],
+                                  "asks": [{"what": xr.choice(["lookup_address", "lookup_node_id", "check"]), "gap_ms": xr.randint(0, 40)} for _ in range(xr.randint(4, 10))]})
     return scn
 
 
@@ -306,6 +327,68 @@ def _run(scn, w, res):
             net.wait(c, timeout=120 * SEC, step=MS)
             net.wait_quiet(quiet=10 * MS, timeout=2 * SEC, step=MS)
             cmds.setdefault(item["id"], []).append((item["op"], c))
+    if scn.get("family") == "busy_master" and scn.get("busy"):
+        bz = scn["busy"]
+        nid = scn["joiners"][0]["id"]
+        nc_ = net.nodes[nid]
+        if nc_.node.node_address != 0o4444:
+            import circuitpython_nrf24l01.rf24_mesh as mm_
+            net.post("M", "busy", lambda node: mm_.time.sleep(bz["ms"] / 1000))      # (an application that does something else for a while)
+            sim.advance(int(bz["lead_ms"] * MS))
+            c = net.post(nid, "check", lambda node: node.check_connection(bz["attempts"], True))
+            net.wait(c, timeout=120 * SEC, step=MS)
+            net.wait_quiet(quiet=10 * MS, timeout=2 * SEC, step=MS)
+            sim.count("master_busy_during_check")
+            if c.done and c.exc is None and c.result is not True:
+                res.add("connected", {"kind": "check_connection_gave_up_early", "ping": True},
+                        "check_connection(%d, ping_master=True) on connected id %d = %r after %.0f ms: the master's application was busy for %.0f ms (one lookup window is 135 ms), "
+                        "the remaining attempts were not used" % (bz["attempts"], nid, c.result, (c.t1 - c.t0) / MS, bz["ms"]))
+            cmds.setdefault(nid, []).append(({"op": "pause"}, c))
+    if scn.get("family") == "peer_down" and scn.get("peer_down"):
+        pd = scn["peer_down"]
+        ida, idb, idc = [j["id"] for j in scn["joiners"]]
+        if all(net.nodes[x].node.node_address != 0o4444 for x in (ida, idb, idc)):
+            net.halt(ida)
+            if pd.get("gone", True):
+                w.air.mute.add("n%s" % ida)      # the node lost power: nothing of it - link-layer acknowledgements included - reaches anybody
+            sim.advance(2 * MS)
+            sim.count("peer_mcu_stopped")
+            addr_a = net.nodes[ida].node.node_address
+            lb, lc = [], []
+            for sd_ in pd["sends"]:
+                lb.append((None, net.hold(idb, sd_["gap_ms"] * MS)))
+                lb.append(({"op": "send", "to": ida, "len": sd_["len"], "type": sd_["type"], "seed": sd_["seed"], "peer_down": True},
+                           net.post(idb, "send", lambda node, sd_=sd_: node.send(ida, sd_["type"], payload(sd_["seed"], sd_["len"])))))
+            for ak in pd["asks"]:
+                lc.append((None, net.hold(idc, ak["gap_ms"] * MS)))
+                if ak["what"] == "lookup_address":
+                    lc.append(({"op": "lookup_address", "id": idb, "peer_down": True}, net.post(idc, "lookup_address", lambda node: node.lookup_address(idb))))
+                elif ak["what"] == "lookup_node_id":
+                    lc.append(({"op": "lookup_node_id", "of": idb, "peer_down": True}, net.post(idc, "lookup_node_id", lambda node: (net.nodes[idb].node.node_address, node.lookup_node_id(net.nodes[idb].node.node_address)))))
+                else:
+                    lc.append(({"op": "check", "ping": True, "peer_down": True}, net.post(idc, "check", lambda node: node.check_connection(1, True))))
+            for op_, c in lb + lc:
+                net.wait(c, timeout=120 * SEC, step=MS)
+                if op_ is not None and (not c.done or c.exc is not None):
+                    res.add("lookup" if op_["op"] != "send" else "reach", {"kind": "call_raised" if c.done else "call_did_not_return", "op": op_["op"], "exc": type(c.exc).__name__},
+                            "%s raised %r / did not return while a peer's MCU was stopped\n%s" % (op_["op"], c.exc, (c.tb or "")[-1500:]))
+            net.wait_quiet(quiet=20 * MS, timeout=3 * SEC, step=MS)
+            # cause-level clause: no packet is lost on this medium, so an unanswered request is only legitimate when the master's
+            # radio could not take it (FIFO full while the master was busy re-trying); a node that throws away frames its radio had
+            # received and acknowledged is the library's doing
+            for (op_, c) in lc:
+                if op_ is None or not c.done or c.exc is not None:
+                    continue
+                r_ = c.result[1] if isinstance(c.result, tuple) else c.result
+                failed = (r_ == -1) if op_["op"] != "check" else (r_ is not True)
+                drops = [(k, n) for k, nc2 in net.nodes.items() for (t, n) in nc2.radio.rx_discards if c.t0 <= t <= c.t1]
+                if failed and drops:
+                    res.add("lookup" if op_["op"] != "check" else "connected", {"kind": "received_frames_discarded", "op": op_["op"]},
+                            "%s on id %d = %r while id %d kept sending to stopped id %d: node(s) %r flushed unread received frames out of their RX FIFO during the call"
+                            % (op_["op"], idc, r_, idb, ida, [(k, n) for k, n in drops]))
+                    break
+            cmds.setdefault(idb, []).extend((None, c) for _, c in lb)
+            cmds.setdefault(idc, []).extend((None, c) for _, c in lc)
     for j in ([] if scn.get("serial") else scn["joiners"]):
         lst = []
         lst.append((None, net.hold(j["id"], j["offset_ms"] * MS)))
